@@ -137,6 +137,7 @@ type Sim struct {
 	retransAllowed          map[string]bool // name|hash -> a failed verdict / give-up / receiver restart allows sending again
 	bytesOnWire             int64
 	others                  map[string]int
+	emptyWatch              bool // C17: report a part of an empty file on the wire
 	told                    []wirePart // parts the sender was told are on record (200, 206 count, recovery answer)
 	deferred                []deferredViolation
 	asyncName               string
@@ -971,6 +972,10 @@ func (s *Sim) serveData(r *req, f Fault) {
 			s.mu.Lock()
 			s.retransAllowed[p.GetName()+"|"+p.GetFileHash()] = true
 			s.mu.Unlock()
+		}
+		if s.emptyWatch && (p.GetFileSize() == 0 || p.GetFileHash() == md5hex(nil)) {
+			s.viol("C17", "empty-file-transmitted", "a part [%d,%d) of %s was transmitted for a file of %d bytes with the hash %.6s (an empty file is not eligible)",
+				beg, end, p.GetName(), p.GetFileSize(), p.GetFileHash())
 		}
 		if age := time.Since(p.GetFileTime()); s.conf.MinAge > 0 && age < s.conf.MinAge {
 			// the scan measures a file's age against its own start, and nothing is sent before a scan saw it
